@@ -2,10 +2,11 @@
 // never drifts).  Op sequences (Add / AddLocal / StrictlyAdd / Remove / Fill / wash / head advance) run on a REAL
 // txpool.TxPool over a real chain (test/testchain, head within the last minute so the pool is in synced mode).
 // After EVERY step, through txpool/verif_hooks.go (VerifAccounting):
-//   * the property predicate is evaluated on the real maps as a function of the real pool content
+//   - the property predicate is evaluated on the real maps as a function of the real pool content
 //     (quota a = #origin a + #delegator a, absent iff 0; cost p = sum of cost of executable objects paid by p);
-//   * the observed transitions (objects added / removed / promoted / re-priced) are replayed as atomic steps of the
+//   - the observed transitions (objects added / removed / promoted / re-priced) are replayed as atomic steps of the
 //     extracted Coq model and the model's maps are compared with the real ones.
+//
 // After every wash the published executables must be non-increasing in priority price and every one is offered to a
 // REAL packer.Flow on the same head, in order. A concurrent driver issues the same ops from goroutines (plus washes
 // and head advances); at quiescence the predicate must hold on the real maps.
@@ -38,6 +39,7 @@ import (
 	"github.com/vechain/thor/v2/txpool"
 
 	"verif/harness/internal/hx"
+	"verif/harness/internal/lockscope"
 )
 
 var forkCfg = thor.ForkConfig{HAYABUSA: math.MaxUint32}
@@ -57,18 +59,18 @@ func accounts() []genesis.DevAccount {
 type Op struct {
 	Kind string `json:"k"` // add addlocal strict remove fill wash head
 	// tx description (add*, fill)
-	From      int    `json:"from,omitempty"`
-	Deleg     int    `json:"deleg,omitempty"` // 0 = none, else dev index+1
-	Dyn       bool   `json:"dyn,omitempty"`
-	Gas       uint64 `json:"gas,omitempty"`
-	Coef      uint8  `json:"coef,omitempty"`
-	Tip       uint64 `json:"tip,omitempty"`
-	Nonce     uint64 `json:"nonce,omitempty"`
-	RefAhead  uint32 `json:"ref_ahead,omitempty"`
-	Exp       uint32 `json:"exp,omitempty"`
-	DepOn     int    `json:"dep,omitempty"`  // 0 none; k>0: depends on the k-th generated tx (mod); -1: unknown id
-	N         int    `json:"n,omitempty"`    // fill: number of txs; remove: index into pooled list
-	Redeleg   int    `json:"redeleg,omitempty"` // same body as generated tx #Redeleg, signed by another delegator (same id, other hash)
+	From     int    `json:"from,omitempty"`
+	Deleg    int    `json:"deleg,omitempty"` // 0 = none, else dev index+1
+	Dyn      bool   `json:"dyn,omitempty"`
+	Gas      uint64 `json:"gas,omitempty"`
+	Coef     uint8  `json:"coef,omitempty"`
+	Tip      uint64 `json:"tip,omitempty"`
+	Nonce    uint64 `json:"nonce,omitempty"`
+	RefAhead uint32 `json:"ref_ahead,omitempty"`
+	Exp      uint32 `json:"exp,omitempty"`
+	DepOn    int    `json:"dep,omitempty"`     // 0 none; k>0: depends on the k-th generated tx (mod); -1: unknown id
+	N        int    `json:"n,omitempty"`       // fill: number of txs; remove: index into pooled list
+	Redeleg  int    `json:"redeleg,omitempty"` // same body as generated tx #Redeleg, signed by another delegator (same id, other hash)
 }
 
 type SeqCase struct {
@@ -85,10 +87,10 @@ type world struct {
 	gen   []*tx.Transaction // generated txs, in order
 	limit int
 	// model prediction for the wash about to run (sequential driver only): published hashes, removed hash:reason
-	predict  bool
-	predPub  []string
-	predRm   []string
-	predOK   bool
+	predict bool
+	predPub []string
+	predRm  []string
+	predOK  bool
 }
 
 func newWorld(limit, lpa int) *world {
@@ -268,8 +270,8 @@ func ask(line string) string {
 	return s
 }
 
-func hx32(b thor.Bytes32) string  { return hx.HexN(b[:]) }
-func hxA(a thor.Address) string   { return hx.HexN(a[:]) }
+func hx32(b thor.Bytes32) string { return hx.HexN(b[:]) }
+func hxA(a thor.Address) string  { return hx.HexN(a[:]) }
 func hxAp(a *thor.Address) string {
 	if a == nil {
 		return "-"
@@ -1018,6 +1020,23 @@ func main() {
 		hx.Fatal("oracle: %v", err)
 	}
 	defer oracle.Close()
+	// premise of the model, re-read from the tree on every run: every txObjectMap method is one atomic step (lock scopes)
+	{
+		repo := os.Getenv("VERIF_REPO")
+		if repo == "" {
+			repo = "/repo"
+		}
+		problems, methods, err := lockscope.Check(repo)
+		if err != nil {
+			hx.Fatal("lockscope: %v", err)
+		}
+		ctx.Cov.Add("lockscope-methods-checked", len(methods))
+		if len(problems) > 0 {
+			ctx.Violation("atomic-step-premise", "the premise under which bookkeeping_inv speaks about the code (each txObjectMap method holds "+
+				"the map lock from its first statement to its return; nothing else touches the maps) no longer holds syntactically: "+
+				strings.Join(problems, "; "), problems, false)
+		}
+	}
 	if ctx.Replay != "" {
 		runReplay(ctx, ctx.Replay)
 	} else {
